@@ -121,15 +121,15 @@ FAMILIES = [
 
 def plan(prop, tier, seed):
     specs = []
-    n, steps = (16, 450) if tier == "quick" else (320, 1500)
+    n, steps = (16, 450) if tier == "quick" else (96, 1000)
     for i in range(n):
         specs.append({"kind": "random", "seed": run_seed(seed, prop, tier, i), "steps": steps, "want_sample": i < 2, "family": (i + seed) % len(FAMILIES)})
     # guided layer: polluter x victim spec pairs per ISA; quick = a seeded slice
     k = 0
     for name in ISAS:
-        parts = 1 if tier == "quick" else 6
+        parts = 1 if tier == "quick" else 3
         for p in range(parts):
-            specs.append({"kind": "pairs", "isa": name, "part": p, "parts": parts, "budget": 600 if tier == "quick" else 8000, "seed": run_seed(seed, prop, tier + "-pairs", k)})
+            specs.append({"kind": "pairs", "isa": name, "part": p, "parts": parts, "budget": 600 if tier == "quick" else 3000, "seed": run_seed(seed, prop, tier + "-pairs", k)})
             k += 1
     return specs
 
